@@ -601,6 +601,21 @@ Definition step_gen (keep rej : bool) (s : sys) (e : event) : option sys :=
       end
   end.
 
+(* What the completion of a hash-check job writes, WHATEVER the state of the row: Executor.try_skip_job /
+   validate_dynamic_job do not look at the state before they call mark_completed / _reset_step_to_pending /
+   set_state(PENDING). ECheckDone above is this, restricted to a row that is CHECKING; the two coincide in every
+   calm history and under either repair (a CHECKING row is left only through its verdict). After a partial recycle
+   of a CHECKING step (part of D21) the verdict of the job still in flight reaches a row that has moved on:
+   late_verdict describes that step of the code (used by the refutation late_verdict_refuted and by the scripted
+   E2 history that replays it on the real Workflow). *)
+Definition verdict_db (d : list row) (i : nat) (c : chk) : list row :=
+  match c with
+  | CSkip => upd d i (fun y => set_has_hash true (set_state_tr Succeeded y))
+  | CMismatch => upd (detach_created d i) i (fun y => set_state_tr Pending (set_has_hash false y))
+  | CValid => upd d i (set_state_tr Pending)
+  end.
+Definition late_verdict (s : sys) (i : nat) (c : chk) : sys := with_db s (verdict_db (db s) i c).
+
 (* a rejected request is rolled back: the state is unchanged *)
 Definition apply_gen (keep rej : bool) (s : sys) (e : event) : sys :=
   match step_gen keep rej s e with Some s' => s' | None => s end.
